@@ -61,14 +61,16 @@ CLAIMS = {
         text='Bounded model checking of the tokenizer steps that produce whitespace, newline and continuation chunks (real parse_whitespace, '
              'parse_newline, parse_bs_newline over a TokenContext of n symbolic code points): every successful step makes progress, never '
              'reads past the input, swallows only whitespace, consumes maximal runs, counts LF / CR LF / CR breaks once each, and a failed '
-             'step restores the position exactly; a backslash-newline becomes one CT_NL_CONT holding one backslash.',
-        note='Bounds: quick n<=4, thorough n<=6; all language sets, all option values the closure reads. Not decided: word/number/string/'
-             'punctuator steps (planned), the ~40 passes between tokenizer and output, the output loop.',
+             'step restores the position exactly; a backslash-newline becomes one CT_NL_CONT holding one backslash; a number token (parse_number) holds exactly '
+             'the characters consumed; a newline inserted inside a directive is a backslash-newline (NL-PP).',
+        note='Bounds: quick n<=4 (numbers n<=2), thorough n<=6; all language sets, all option values the closure reads. Found and fixed: D11 '
+             '(number token 0h swallowed the next character). Not decided: word/punctuator steps, the ~40 passes between tokenizer and '
+             'output, the output loop (no verdict, DESIGN 9.2).',
         design_ref='DESIGN.md section 4, C02'),
     'C06': dict(
         text='Bounded model checking with CBMC memory-safety instrumentation (bounds, pointer, division) and unwinding assertions of the '
              'encodable front of the pipeline on ARBITRARY input within the bound: the codec (decode_unicode and writers) and the '
-             'tokenizer steps parse_whitespace / parse_newline / parse_bs_newline / parse_ignored: no out-of-bounds access, no uncaught '
+             'tokenizer steps parse_whitespace / parse_newline / parse_bs_newline / parse_ignored / parse_string / parse_number: no out-of-bounds access, no uncaught '
              'exception, termination, progress on success and exact restore on failure.',
         note='Bounds: byte strings n<=4 (codec), code point sequences n<=4 (tokenizer steps); thorough 8 / 6. Not decided: the parser passes '
              'after tokenizing, indent_text, the convergence loops of uncrustify_file (a pre-existing hang on a Pawn "#define X" at end of '
@@ -78,7 +80,8 @@ CLAIMS = {
         text='Bounded model checking of the kernels that own the counts: blank_line_max/blank_line_set for EVERY newline count and limit, and '
              'newlines_eat_start_end() on every chunk list of up to k chunks with all values of nl_start_of_file/_min and nl_end_of_file/_min: '
              'remove leaves no line break, force gives exactly the minimum, add raises to the minimum and never lowers, ignore and code '
-             'fragments leave the ends alone.',
+             'fragments leave the ends alone; and can_increase_nl() lets the first/last newline of a file grow exactly when '
+             'nl_start_of_file / nl_end_of_file is ignore (what makes the start/end counts exact after do_blank_lines).',
         note='Bounds: quick k<=3 chunks, thorough k<=4; newline counts 1..9, unbounded options in [0,64]. NOT decided (stated): a full run of '
              'do_blank_lines (the cap on every newline chunk) - CBMC did not finish on its list walks even for 2 chunks; the other nl_ passes.',
         design_ref='DESIGN.md section 4, C20'),
@@ -105,8 +108,8 @@ CLAIMS = {
              'failing): for all contents within the bound, at every termination (return, exit, crash) the target holds the complete '
              'original or the complete formatted bytes; unless --no-backup, a replaced target implies a backup equal to the original; '
              'success is reported only if the target holds the formatted bytes. Crash points and fault schedules are solver variables.',
-        note='Bounds: quick contents of 1 byte, one crash point or one fault per run, modes concrete per instance; thorough contents <=3 bytes, '
-             'crash + fault and fault pairs. Stubs: formatter writes an arbitrary fixed byte string (or fails), MD5 abstract injective digest, '
+        note='Bounds: quick contents of 1 byte (2 bytes for the backup-fault instance), one crash point or one fault per run, modes concrete per '
+             'instance; thorough contents <=2 bytes, crash + fault and fault pairs. Stubs: formatter writes an arbitrary fixed byte string (or fails), MD5 abstract injective digest, '
              'libc = harness/vp_fsmodel.h. Found and fixed: D3 (write errors ignored), D9 (backup fclose ignored).',
         design_ref='DESIGN.md section 4, C13'),
     'C14': dict(
